@@ -21,31 +21,28 @@ theorem SSt.at_init (k : Key) : SSt.at SSt.init k = [] := rfl
 
 /-! ### The memo -/
 
-/-- Number of `true` entries of a memo. -/
-def memoTrue (m : List (Rid × Bool)) : Nat := (m.filter (fun e => e.2)).length
+/-- What the pending (`true`) entries of a memo have counted, in total. -/
+def memoCost (m : List (Rid × Option Nat)) : Nat := (m.map (fun e => e.2.getD 0)).sum
 
-theorem memoTrue_cons (e : Rid × Bool) (m : List (Rid × Bool)) :
-    memoTrue (e :: m) = (if e.2 then 1 else 0) + memoTrue m := by
-  unfold memoTrue
-  by_cases h : e.2 = true
-  · simp [h]; omega
-  · simp [h]
+theorem memoCost_cons (e : Rid × Option Nat) (m : List (Rid × Option Nat)) :
+    memoCost (e :: m) = e.2.getD 0 + memoCost m := by
+  simp [memoCost]
 
-theorem memoTrue_erase_le (m : List (Rid × Bool)) (r : Rid) :
-    memoTrue (m.filter (fun e => e.1 != r)) ≤ memoTrue m := by
+theorem memoCost_nil : memoCost [] = 0 := rfl
+
+theorem memoCost_erase_le (m : List (Rid × Option Nat)) (r : Rid) :
+    memoCost (m.filter (fun e => e.1 != r)) ≤ memoCost m := by
   induction m with
-  | nil => simp [memoTrue]
+  | nil => simp [memoCost]
   | cons e m ih =>
     by_cases h : (e.1 != r) = true
-    · simp only [List.filter_cons, h, if_true, memoTrue_cons]; omega
-    · simp only [List.filter_cons, h, memoTrue_cons]
-      have : (if (false : Bool) = true then e :: m.filter (fun e => e.1 != r) else m.filter (fun e => e.1 != r))
-          = m.filter (fun e => e.1 != r) := by simp
+    · simp only [List.filter_cons, h, if_true, memoCost_cons]; omega
+    · simp only [List.filter_cons, h, memoCost_cons]
       simp only [Bool.false_eq_true, if_false] at *
       omega
 
-theorem memoTrue_erase_lt (m : List (Rid × Bool)) (r : Rid) (h : m.lookup r = some true) :
-    memoTrue (m.filter (fun e => e.1 != r)) + 1 ≤ memoTrue m := by
+theorem memoCost_erase_lt (m : List (Rid × Option Nat)) (r : Rid) (c : Nat) (h : m.lookup r = some (some c)) :
+    memoCost (m.filter (fun e => e.1 != r)) + c ≤ memoCost m := by
   induction m with
   | nil => simp at h
   | cons e m ih =>
@@ -54,30 +51,34 @@ theorem memoTrue_erase_lt (m : List (Rid × Bool)) (r : Rid) (h : m.lookup r = s
     · subst hr
       simp only [List.lookup_cons_self, Option.some.injEq] at h
       subst h
-      have := memoTrue_erase_le m r
-      simp [List.filter_cons, memoTrue_cons]; omega
+      have := memoCost_erase_le m r
+      simp [List.filter_cons, memoCost_cons]; omega
     · have hne : (r == a) = false := by simpa using hr
       have hne' : (a != r) = true := by simp; exact fun h => hr h.symm
       simp only [List.lookup_cons, hne] at h
       have := ih h
-      simp only [List.filter_cons, hne', if_true, memoTrue_cons]; omega
+      simp only [List.filter_cons, hne', if_true, memoCost_cons]; omega
+
+theorem pendingAmt_of_lookup (l : Lvl) (r : Rid) (c : Nat) (h : l.memo.lookup r = some (some c)) :
+    pendingAmt l r = c := by
+  simp [pendingAmt, h]
 
 /-! ### One level against its reconstructed windows -/
 
 /-- Relation between a level and the windows reconstructed from its log (newest first). -/
 structure TInv (mx : Nat) (l : Lvl) (ws : List Win) : Prop where
-  empty : ws = [] → l.start = none ∧ l.counter = 0 ∧ memoTrue l.memo = 0
+  empty : ws = [] → l.start = none ∧ l.counter = 0 ∧ memoCost l.memo = 0
   head : ∀ w rest, ws = w :: rest →
-    l.start = some w.start ∧ l.counter = w.charged ∧ w.admitted + memoTrue l.memo ≤ w.charged
+    l.start = some w.start ∧ l.counter = w.charged ∧ w.admitted + memoCost l.memo ≤ w.charged
   all : ∀ w ∈ ws, w.admitted ≤ w.charged ∧ w.charged ≤ mx
 
 theorem TInv.init (mx : Nat) : TInv mx Lvl.init [] := by
   constructor
-  · intro _; simp [Lvl.init, memoTrue]
+  · intro _; simp [Lvl.init, memoCost]
   · intro w rest h; simp at h
   · intro w h; simp at h
 
-/-- The base count `AtomicIncWindow` starts from equals the charged count of the window that is
+/-- The base count `AtomicIncWindow` starts from equals the charged amount of the window that is
     current for the arrival, as reconstructed. -/
 theorem base_eq_curCharged {mx : Nat} {l : Lvl} {ws : List Win} (inv : TInv mx l ws) (win t : Nat) :
     (if decide (win ≤ elapsed l t) then 0 else l.counter) = curCharged win t ws := by
@@ -89,9 +90,10 @@ theorem base_eq_curCharged {mx : Nat} {l : Lvl} {ws : List Win} (inv : TInv mx l
     obtain ⟨hs, hc, _⟩ := inv.head w rest rfl
     simp [curCharged, outside, elapsed, hs, hc]
 
-theorem incLevel_res {mx : Nat} {l : Lvl} {ws : List Win} (inv : TInv mx l ws) (win r t : Nat)
+theorem incLevel_res {mx : Nat} {l : Lvl} {ws : List Win} (inv : TInv mx l ws) (win r t cost : Nat)
     (hfresh : l.memo.lookup r = none) :
-    (incLevel mx win l r t).2 = if mx < curCharged win t ws + 1 then IncRes.blocked else IncRes.increased := by
+    (incLevel mx win l r t cost).2 =
+      if mx < curCharged win t ws + cost then IncRes.blocked else IncRes.increased := by
   have hb := base_eq_curCharged inv win t
   unfold incLevel
   simp only [hfresh]
@@ -99,16 +101,16 @@ theorem incLevel_res {mx : Nat} {l : Lvl} {ws : List Win} (inv : TInv mx l ws) (
   split <;> rfl
 
 /-- `quota.Inc` preserves the relation; the windows change exactly when the answer is `increased`. -/
-theorem incLevel_inv {mx : Nat} {l : Lvl} {ws : List Win} (inv : TInv mx l ws) (win r t : Nat) :
-    TInv mx (incLevel mx win l r t).1
-      (if (incLevel mx win l r t).2 = IncRes.increased then chargeWin win t ws else ws) := by
+theorem incLevel_inv {mx : Nat} {l : Lvl} {ws : List Win} (inv : TInv mx l ws) (win r t cost : Nat) :
+    TInv mx (incLevel mx win l r t cost).1
+      (if (incLevel mx win l r t cost).2 = IncRes.increased then chargeWin win t cost ws else ws) := by
   unfold incLevel
   cases hl : l.memo.lookup r with
   | some v => simpa using inv
   | none =>
     simp only
-    by_cases hblk : mx < (if decide (win ≤ elapsed l t) = true then 0 else l.counter) + 1
-    · -- blocked: only the memo changes, and it gains no `true`
+    by_cases hblk : mx < (if decide (win ≤ elapsed l t) = true then 0 else l.counter) + cost
+    · -- blocked: only the memo changes, and it gains nothing pending
       simp only [hblk, if_true]
       have : (IncRes.blocked = IncRes.increased) = False := by simp
       simp only [this, if_false]
@@ -118,15 +120,15 @@ theorem incLevel_inv {mx : Nat} {l : Lvl} {ws : List Win} (inv : TInv mx l ws) (
         refine ⟨h1, h2, ?_⟩
         dsimp only
         split
-        · simp [memoTrue]
-        · simp [memoTrue_cons, h3]
+        · simp [memoCost]
+        · simp [memoCost_cons, h3]
       · intro w rest h
         obtain ⟨h1, h2, h3⟩ := inv.head w rest h
         refine ⟨h1, h2, ?_⟩
         dsimp only
         split
-        · simp only [memoTrue, List.filter_nil, List.length_nil]; omega
-        · simp [memoTrue_cons]; exact h3
+        · simp only [memoCost_nil]; omega
+        · simp [memoCost_cons]; exact h3
       · exact inv.all
     · -- increased
       simp only [hblk, if_false]
@@ -146,8 +148,8 @@ theorem incLevel_inv {mx : Nat} {l : Lvl} {ws : List Win} (inv : TInv mx l ws) (
           · simp only [hs]; split <;> rfl
           · simp [hc]
           · by_cases hd : win ≤ elapsed l t
-            · simp [hd, memoTrue_cons, memoTrue]
-            · simp [hd, memoTrue_cons, hm]
+            · simp [hd, memoCost_cons, memoCost]
+            · simp [hd, memoCost_cons, hm]
         · intro w hw
           simp only [chargeWin, List.mem_singleton] at hw
           subst hw
@@ -171,7 +173,7 @@ theorem incLevel_inv {mx : Nat} {l : Lvl} {ws : List Win} (inv : TInv mx l ws) (
             subst hw
             dsimp only
             refine ⟨rfl, rfl, ?_⟩
-            simp [memoTrue_cons, memoTrue]
+            simp [memoCost_cons, memoCost]
           · intro w' hw'
             simp only [List.mem_cons] at hw'
             rcases hw' with h | h
@@ -190,7 +192,7 @@ theorem incLevel_inv {mx : Nat} {l : Lvl} {ws : List Win} (inv : TInv mx l ws) (
             subst hw
             dsimp only
             refine ⟨by simp [hs], by omega, ?_⟩
-            simp only [memoTrue_cons, if_true]
+            simp only [memoCost_cons, Option.getD_some]
             omega
           · intro w' hw'
             simp only [List.mem_cons] at hw'
@@ -201,18 +203,20 @@ theorem incLevel_inv {mx : Nat} {l : Lvl} {ws : List Win} (inv : TInv mx l ws) (
               omega
             · exact hall w' (by simp only [List.mem_cons]; right; exact h)
 
-/-- `quota.Allowed` preserves the relation; an answer `true` is an admission in the current window. -/
+/-- `quota.Allowed` preserves the relation; an answer `true` is an admission in the current window of
+    what had been counted for the request. -/
 theorem allowedLevel_inv {mx : Nat} {l : Lvl} {ws : List Win} (inv : TInv mx l ws) (r : Rid) :
-    TInv mx (allowedLevel l r).1 (if (allowedLevel l r).2 = true then admitWin ws else ws) := by
+    TInv mx (allowedLevel l r).1
+      (if (allowedLevel l r).2 = true then admitWin (pendingAmt l r) ws else ws) := by
   unfold allowedLevel
   cases hl : l.memo.lookup r with
   | none => simpa using inv
   | some v =>
     dsimp only
     cases v with
-    | false =>
-      simp only [Bool.false_eq_true, if_false]
-      have hle := memoTrue_erase_le l.memo r
+    | none =>
+      simp only [Option.isSome_none, Bool.false_eq_true, if_false]
+      have hle := memoCost_erase_le l.memo r
       constructor
       · intro h
         obtain ⟨h1, h2, h3⟩ := inv.empty h
@@ -221,13 +225,18 @@ theorem allowedLevel_inv {mx : Nat} {l : Lvl} {ws : List Win} (inv : TInv mx l w
         obtain ⟨h1, h2, h3⟩ := inv.head w rest h
         exact ⟨h1, h2, by dsimp only; omega⟩
       · exact inv.all
-    | true =>
-      simp only [if_true]
-      have hlt := memoTrue_erase_lt l.memo r hl
+    | some c =>
+      simp only [Option.isSome_some, if_true]
+      rw [pendingAmt_of_lookup l r c hl]
+      have hlt := memoCost_erase_lt l.memo r c hl
       cases ws with
       | nil =>
-        obtain ⟨_, _, h3⟩ := inv.empty rfl
-        omega
+        obtain ⟨h1, h2, h3⟩ := inv.empty rfl
+        simp only [admitWin]
+        constructor
+        · intro _; exact ⟨h1, h2, by dsimp only; omega⟩
+        · intro w rest h; simp at h
+        · intro w h; simp at h
       | cons w rest =>
         obtain ⟨h1, h2, h3⟩ := inv.head w rest rfl
         have hall := inv.all
@@ -253,7 +262,7 @@ theorem allowedLevel_inv {mx : Nat} {l : Lvl} {ws : List Win} (inv : TInv mx l w
 theorem decLevel_inv {mx : Nat} {l : Lvl} {ws : List Win} (inv : TInv mx l ws) (r : Rid) :
     TInv mx (decLevel l r) ws := by
   unfold decLevel
-  have hle := memoTrue_erase_le l.memo r
+  have hle := memoCost_erase_le l.memo r
   constructor
   · intro h
     obtain ⟨h1, h2, h3⟩ := inv.empty h
@@ -263,24 +272,31 @@ theorem decLevel_inv {mx : Nat} {l : Lvl} {ws : List Win} (inv : TInv mx l ws) (
     exact ⟨h1, h2, by dsimp only; omega⟩
   · exact inv.all
 
-/-- `quota.refund` preserves the relation; a refund that happened is one charge less in the current window. -/
+/-- `quota.refund` preserves the relation; a refund that happened takes what had been counted for the
+    request off the current window. -/
 theorem refundLevel_inv {mx : Nat} {l : Lvl} {ws : List Win} (inv : TInv mx l ws) (r : Rid) :
-    TInv mx (refundLevel l r).1 (if (refundLevel l r).2 = true then refundWin ws else ws) := by
+    TInv mx (refundLevel l r).1
+      (if (refundLevel l r).2 = true then refundWin (pendingAmt l r) ws else ws) := by
   unfold refundLevel
   cases hl : l.memo.lookup r with
   | none => simpa using inv
   | some v =>
     cases v with
-    | false => simpa using inv
-    | true =>
+    | none => simpa using inv
+    | some c =>
       simp only [if_true]
-      have hlt := memoTrue_erase_lt l.memo r hl
-      have hm : memoTrue ((r, false) :: l.memo.filter (fun e => e.1 != r)) + 1 ≤ memoTrue l.memo := by
-        simp only [memoTrue_cons]; simpa using hlt
+      rw [pendingAmt_of_lookup l r c hl]
+      have hlt := memoCost_erase_lt l.memo r c hl
+      have hm : memoCost ((r, none) :: l.memo.filter (fun e => e.1 != r)) + c ≤ memoCost l.memo := by
+        simp only [memoCost_cons]; simpa using hlt
       cases ws with
       | nil =>
-        obtain ⟨_, _, h3⟩ := inv.empty rfl
-        omega
+        obtain ⟨h1, h2, h3⟩ := inv.empty rfl
+        simp only [refundWin]
+        constructor
+        · intro _; exact ⟨h1, by dsimp only; omega, by dsimp only; omega⟩
+        · intro w rest h; simp at h
+        · intro w h; simp at h
       | cons w rest =>
         obtain ⟨h1, h2, h3⟩ := inv.head w rest rfl
         have hall := inv.all
@@ -391,8 +407,8 @@ theorem stepThread_inv (cfg : Cfg) (st : St) (log : List LEv) (now tid : Nat) (t
           rw [St.at_set]
           simp only [if_true, List.singleton_append]
           rw [tally_cons_at _ _ _ _ (by simp [LEv.at])]
-          have := incLevel_inv (hl (a, groupOf c' th.h) c' hk) c'.win th.r now
-          cases hres : (incLevel c'.max c'.win (st.at (a, groupOf c' th.h)) th.r now).2 <;>
+          have := incLevel_inv (hl (a, groupOf c' th.h) c' hk) c'.win th.r now (costOf c' th.h)
+          cases hres : (incLevel c'.max c'.win (st.at (a, groupOf c' th.h)) th.r now (costOf c' th.h)).2 <;>
             simp only [hres, tallyStep] at this ⊢ <;> simpa using this
         · rw [St.at_set]
           simp only [hkk, if_false, List.singleton_append]
@@ -463,10 +479,10 @@ theorem stepThread_inv (cfg : Cfg) (st : St) (log : List LEv) (now tid : Nat) (t
       have key : ∀ (b : Bool) (pre : List LEv), (∀ e ∈ pre, ∀ k, LEv.at k e = false) →
           (allowedLevel (st.at (a, groupOf c th.h)) th.r).2 = b →
           LevelsOk cfg (KMap.set st (a, groupOf c th.h) (allowedLevel (st.at (a, groupOf c th.h)) th.r).1)
-            (pre ++ LEv.allowed (a, groupOf c th.h) th.r b :: log) := by
+            (pre ++ LEv.allowed (a, groupOf c th.h) th.r b (pendingAmt (st.at (a, groupOf c th.h)) th.r) :: log) := by
         intro b pre hpre hb k c' hk
-        have hpre' : tally c'.win k (pre ++ LEv.allowed (a, groupOf c th.h) th.r b :: log)
-            = tally c'.win k (LEv.allowed (a, groupOf c th.h) th.r b :: log) := by
+        have hpre' : tally c'.win k (pre ++ LEv.allowed (a, groupOf c th.h) th.r b (pendingAmt (st.at (a, groupOf c th.h)) th.r) :: log)
+            = tally c'.win k (LEv.allowed (a, groupOf c th.h) th.r b (pendingAmt (st.at (a, groupOf c th.h)) th.r) :: log) := by
           induction pre with
           | nil => rfl
           | cons e pre ih =>
